@@ -1127,6 +1127,10 @@ class Interp:
         if k == "lambda" and len(f) > 3:
             fi, cenv = self.closures[f[3]]
             return self.call_function(st, fi, args, kwargs, n, tree, closure_env=cenv)
+        if k == "partial":
+            kw2 = dict(f[3])
+            kw2.update(kwargs)
+            return self.apply(st, f[1], list(f[2]) + list(args), kw2, n, tree)
         if k == "attrgetter" and len(args) == 1 and isinstance(f[1], str):
             return self.get_attr(st, args[0], f[1], n, tree)
         if k == "itemgetter" and len(args) == 1:
@@ -1141,6 +1145,10 @@ class Interp:
             if nm in ("typing.cast", "typing_extensions.cast") and len(args) == 2:
                 self._note_cast(n, args[1])
                 return args[1]
+            if nm == "itertools.chain" and not kwargs:
+                return self.new_list([("s", a) for a in args], n, tree)
+            if nm == "functools.partial" and args:
+                return ("partial", args[0], tuple(args[1:]), tuple(sorted(kwargs.items())))
             if nm in ("operator.attrgetter", "operator.itemgetter") and len(args) == 1 and is_const(args[0]) and not kwargs:
                 return (nm.rsplit(".", 1)[1], args[0][1])
             if nm in ("collections.deque",) and not args and not kwargs:
@@ -1468,6 +1476,14 @@ class Interp:
         while i < len(stmts) and out.live is not None:
             s = stmts[i]
             i += 1
+            if isinstance(s, ast.Match):
+                lowered = self._lower_match(s)
+                if lowered is not None:
+                    # ``match`` on values is an if/elif chain on one evaluated subject
+                    o = self.exec_block(lowered + list(stmts[i:]), out.live, tree)
+                    self._acc(out, o)
+                    out.live = o.live
+                    return out
             if isinstance(s, ast.If):
                 o = self.exec_if(s, out.live, tree, stmts[i:])
                 if o is not None:          # rest of the block was consumed inside a branch
@@ -1577,6 +1593,62 @@ class Interp:
         r = combine(ot, acc)
         r.live = o2.live
         return r
+
+    def _lower_match(self, s: ast.Match):
+        """[subject assignment, if/elif chain] for a match statement whose patterns are literals, singletons, alternatives of
+        those, captures and the wildcard; None for structural patterns (left opaque)."""
+        cached = getattr(s, "_lowered", None)
+        if cached is not None:
+            return cached or None
+        subj = f"__match_{s.lineno}_{s.col_offset}"
+        S = lambda: ast.Name(id=subj, ctx=ast.Load())
+
+        def test(p):
+            """(test expr or None for 'always', [capture assignments])"""
+            if isinstance(p, ast.MatchValue):
+                return ast.Compare(left=S(), ops=[ast.Eq()], comparators=[p.value]), []
+            if isinstance(p, ast.MatchSingleton):
+                return ast.Compare(left=S(), ops=[ast.Is()], comparators=[ast.Constant(value=p.value)]), []
+            if isinstance(p, ast.MatchOr):
+                ts = [test(x) for x in p.patterns]
+                if any(t is None or t[1] for t in ts):
+                    return None
+                if any(t[0] is None for t in ts):
+                    return (None, [])
+                return ast.BoolOp(op=ast.Or(), values=[t[0] for t in ts]), []
+            if isinstance(p, ast.MatchAs):
+                inner = (None, []) if p.pattern is None else test(p.pattern)
+                if inner is None:
+                    return None
+                caps = list(inner[1])
+                if p.name is not None:
+                    caps.append(ast.Assign(targets=[ast.Name(id=p.name, ctx=ast.Store())], value=S()))
+                return inner[0], caps
+            return None
+
+        chain = None
+        for case in reversed(s.cases):
+            t = test(case.pattern)
+            if t is None:
+                s._lowered = []
+                return None
+            cond, caps = t
+            if case.guard is not None:
+                if caps:
+                    s._lowered = []
+                    return None         # a guard over captured names: not lowered
+                cond = case.guard if cond is None else ast.BoolOp(op=ast.And(), values=[cond, case.guard])
+            body = caps + list(case.body)
+            if cond is None:
+                chain = body
+            else:
+                chain = [ast.If(test=cond, body=body, orelse=chain or [])]
+        out = [ast.Assign(targets=[ast.Name(id=subj, ctx=ast.Store())], value=s.subject)] + (chain or [])
+        for n in out:
+            ast.copy_location(n, s)
+            ast.fix_missing_locations(n)
+        s._lowered = out
+        return out
 
     def exec_stmt(self, s: ast.stmt, st: State, tree: list) -> Outcome:
         m = getattr(self, "st_" + type(s).__name__, None)
